@@ -2,6 +2,7 @@ package props
 
 import (
 	"fmt"
+	"github.com/ipfs/go-cid"
 	"strings"
 	"time"
 
@@ -37,7 +38,7 @@ func init() {
 		MinDistinct: floor(3000, 15000),
 		RequiredCells: func(string) []string {
 			cells := []string{"A/zones", "B/long-chain", "B/far-bound", "B/near-bound", "A/inside", "A/before-nbf", "A/after-exp", "A/on-bound", "A/decoded", "A/constructed", "A/delegation", "A/invocation", "A/exp<nbf", "A/far-future-bound", "A/decoded-from-signed-payload",
-				"B/all-valid", "B/expired@inv", "A2/requested-vs-reported", "A2/chain/notyet", "A2/chain/valid", "C/before/inside", "C/before/outside", "C/after/inside", "C/after/outside", "C/later/outside", "C/after/chain/exp@leaf/first-call-after-silence", "C/after/IsValidNow/dlg-exp/first-call-after-silence", "C/after/chain/exp@inv/first-call-after-silence"}
+				"B/all-valid", "B/expired@inv", "B/no-proofs", "B/no-proofs/expired", "A2/requested-vs-reported", "A2/chain/notyet", "A2/chain/valid", "C/before/inside", "C/before/outside", "C/after/inside", "C/after/outside", "C/later/outside", "C/after/chain/exp@leaf/first-call-after-silence", "C/after/IsValidNow/dlg-exp/first-call-after-silence", "C/after/chain/exp@inv/first-call-after-silence"}
 			for _, pos := range []string{"first", "middle", "last", "only"} {
 				cells = append(cells, "B/expired@"+pos, "B/notyet@"+pos)
 			}
@@ -342,6 +343,7 @@ func runC04(w *mon.W) {
 	}
 
 	c04Requested(w)
+	c04NoProofs(w)
 
 	// ---- B: chains
 	total := w.Share(w.Pick(8000, 60000))
@@ -716,6 +718,71 @@ func c04Requested(w *mon.W) {
 				}
 				if kind == "valid" && e != nil {
 					w.Count("conforming_but_denied(judged_by_C05)", 1)
+				}
+			}
+		}
+	}
+}
+
+// c04NoProofs: the chain of length zero. An invocation that lists no proofs at all - issued by
+// its subject or by someone else - is never allowed when it is itself expired (whatever the
+// check makes of the empty proof list otherwise, which C01 judges).
+func c04NoProofs(w *mon.W) {
+	cmd := command.MustParse("/a/b")
+	idx := 0
+	for _, self := range []bool{true, false} {
+		for _, off := range []time.Duration{-10 * 365 * 24 * time.Hour, -time.Hour, -45 * time.Second, time.Hour, 0} {
+			for _, hook := range []bool{false, true} {
+				for _, decoded := range []bool{false, true} {
+					idx++
+					if !w.Mine(idx) {
+						continue
+					}
+					iss, sub := gen.Ed(idx), gen.Ed(idx)
+					if !self {
+						sub = gen.Ed(idx + 1)
+					}
+					var opts []invocation.Option
+					if off != 0 {
+						opts = append(opts, invocation.WithExpirationIn(off))
+					}
+					if idx%3 == 0 {
+						opts = append(opts, invocation.WithArgument("k", "v"))
+					}
+					var prf []cid.Cid
+					if idx%2 == 0 {
+						prf = []cid.Cid{}
+					}
+					inv, err := invocation.New(iss.DID, sub.DID, cmd, prf, opts...)
+					if err != nil {
+						w.Inconclusive("C04 no-proofs invocation: " + err.Error())
+						continue
+					}
+					if decoded {
+						sealed, _, err := inv.ToSealed(iss.Priv)
+						if err != nil {
+							continue
+						}
+						if inv, _, err = invocation.FromSealed(sealed); err != nil {
+							w.Inconclusive("C04 no-proofs unseal: " + err.Error())
+							continue
+						}
+					}
+					ld := &chain.MapLoader{M: map[cid.Cid]*delegation.Token{}, Errs: map[cid.Cid]bool{}}
+					tb := time.Now()
+					e := judged(inv, ld, hook)
+					ta := time.Now()
+					w.Eval(1)
+					w.Cover("B/no-proofs")
+					w.Distinct("no-proofs", self, off, hook, decoded)
+					exp := inv.Expiration()
+					if exp != nil && exp.Before(tb.Add(-time.Second)) {
+						w.Cover("B/no-proofs/expired")
+						if e == nil {
+							w.Violate("B/allowed-outside-window/inv-expired/no-proofs", fmt.Sprintf("ExecutionAllowed = nil for an invocation without proofs (issuer %s subject) that expired at %s", map[bool]string{true: "==", false: "!="}[self], fmtT(exp)),
+								map[string]any{"issuer_is_subject": self, "expiration": fmtT(exp), "hook": hook, "decoded": decoded, "clock_before_call": tb.UTC().Format(time.RFC3339Nano), "clock_after_call": ta.UTC().Format(time.RFC3339Nano)})
+						}
+					}
 				}
 			}
 		}
